@@ -38,11 +38,11 @@ fn main() {
             let p = args[2].as_str();
             let c = load_corpus();
             let reps: Vec<Report> = match p {
-                "C01" => vec![o_text::c01(&c, &tier)],
+                "C01" => vec![o_text::c01(&c, &tier), o_text::c01_mutants(&c, &tier)],
                 "C02" => c02::oracle(&c, seed, &tier),
                 "C03" => { let mut v = c03::oracle(seed, &tier); v.push(c03::dyn_edges(&c, &tier)); v }
                 "C04" => c04o::oracle(seed, &tier),
-                "C05" => vec![o_text::c05(&c, &tier)],
+                "C05" => vec![o_text::c05(&c, &tier), o_text::c05_mutants(&c, &tier)],
                 "C06" => c06::oracle_c06(seed, &tier),
                 "C07" => vec![o_text::c07(&c, &tier)],
                 "C08" => c08::oracle(&c, seed, &tier),
@@ -120,6 +120,16 @@ fn main() {
                 }
             }
             println!("generated={} deser_errs={} printed_and_accepted={} fixpoint={} display_panics={}", sts.len(), errs.len(), ok, fix, panics);
+        }
+        Some("mutant-stats") => {
+            let c = load_corpus();
+            let tier = std::env::var("VERIF_TIER").unwrap_or("quick".into());
+            let t0 = std::time::Instant::now();
+            let m = common::mutants(&c, &tier);
+            let ds = all_dialects();
+            let mut acc = 0usize;
+            for s in &m { for (_, d) in &ds { if let G::Val(Ok(v)) = parse(d.as_ref(), Opts::DEFAULT, s) { if !v.is_empty() { acc += 1; } } } }
+            println!("mutants={} accepted_pairs={} secs={:.1}", m.len(), acc, t0.elapsed().as_secs_f64());
         }
         Some("corpus-stats") => {
             let c = load_corpus();
